@@ -144,7 +144,7 @@ def run(ctx):
         ctx.ob("E3.sides", "K", ok_k, "seal K = pairing[(hash_to_point(id, dst), pk*r)]; unseal K' = pairing[(decryption_key, u)]", where=where(s_))
         # U = G*r with the same r that multiplies pk
         ret = strip_sites(se.ret)
-        oks = [se.exit_state[b].get(0) for b in R.ok_blocks(s_)]
+        oks = [R.ok_value(se.fn, se, b) for b in R.ok_blocks(s_)]
         ok_u = False
         for v in oks:
             v = strip_sites(v)
